@@ -1352,6 +1352,8 @@ def make_builtins(I):
             return b""
         if isinstance(a[0], (str, bytes, int, list)):
             return bytes(*a)
+        if isinstance(a[0], Sym) and a[0].kind == "str" and a[0].pytype == ("bytes",):
+            return a[0]
         raise EngineError("bytes()")
 
     @reg("abs")
